@@ -5,9 +5,9 @@ import random as _random
 from harness import coqio as q
 
 ID = "C26"
-COQ_REQUIRE = ["M_Repair"]
-COQ_CASE_TYPE = "M_Repair.case"
-COQ_CHECK = "M_Repair.check_case"
+COQ_REQUIRE = ["M_Repair", "M_Repair2"]
+COQ_CASE_TYPE = "M_Repair2.case"
+COQ_CHECK = "M_Repair2.check_case"
 N_QUICK, N_THOROUGH = 260, 4000
 SHARD = 60
 RULE = ("seeded discovery states (2-5 agents, 1-6 computations hosted on random agents, random replica "
@@ -44,7 +44,8 @@ META = dict(
 OBLIGATIONS = ["orphaned_exact", "orphaned_B_prefixed_refuted", "candidates_exact", "info_candidates_exact",
                "agt_info_keys_exact", "fixed_neighbours_survive", "fixed_neighbours_technical_refuted",
                "hosted_zero_iff_exactly_one", "hosted_exactly_one_candidate", "capacity_zero_iff_fits",
-               "hosting_is_sum", "comm_is_sum", "comm_scope_exact"]
+               "hosting_is_sum", "comm_is_sum", "comm_scope_exact",
+               "repair_dcop_zero_iff_valid", "repair_dcop_zero_iff_valid_abstract", "repair_dcop_soft_is_sum"]
 
 FINDING_B = "C26-B-prefixed-computation-not-orphaned"
 
@@ -313,6 +314,83 @@ def _constr_obs(spec, bv, make, rng):
     return o
 
 
+def _info_json(i):
+    return [list(i[0]), [[k, v] for k, v in i[1].items()], [[k, list(v)] for k, v in i[2].items()]]
+
+
+def _setup_repair_glue(own, repair_info, remaining, footprint, hosting, comm):
+    """the constraints ResilientAgent.setup_repair builds (same statements, same order)"""
+    from pydcop.dcop.objects import create_binary_variables
+    from pydcop import reparation as P
+    orphaned_binvars, candidate_binvars, hosted_cs = {}, {}, {}
+    for candidate_comp, candidate_info in repair_info.items():
+        agts, _, neighbors = candidate_info
+        v_binvar = create_binary_variables('B', ([candidate_comp], candidate_info[0]))
+        orphaned_binvars.update(v_binvar)
+        candidate_binvars[(candidate_comp, own)] = v_binvar[(candidate_comp, own)]
+        hosted_cs[candidate_comp] = P.create_computation_hosted_constraint(candidate_comp, v_binvar)
+        for neighbor in neighbors:
+            v_binvar = create_binary_variables('B', ([neighbor], neighbors[neighbor]))
+            orphaned_binvars.update(v_binvar)
+    capacity_c = P.create_agent_capacity_constraint(own, remaining, footprint, candidate_binvars)
+    hosting_c = P.create_agent_hosting_constraint(own, hosting, candidate_binvars)
+    comms = []
+    for (comp, agt), candidate_var in candidate_binvars.items():
+        comms.append(P.create_agent_comp_comm_constraint(agt, comp, repair_info[comp], comm, orphaned_binvars))
+    return list(hosted_cs.values()) + [capacity_c], [hosting_c] + comms, orphaned_binvars
+
+
+def _global_obs(c, cands, cg, d, rng):
+    """the repair DCOP of ALL candidate agents (same cost tables for every agent) and the sums of
+    its hard / soft constraints under global binary assignments"""
+    from pydcop.reparation import removal as R
+    footprint, hosting = _tblfun(c["footprint"]), _tblfun(c["hosting"])
+    comm = _commfun(c["comm"], c["comm_default"])
+    agents = sorted(cands)
+    g = dict(agents=agents, ri=[], hard=[], soft=[])
+    allvars = {}
+    hard, soft = [], []
+    for a in agents:
+        try:
+            ri = R._removal_candidate_agt_info(a, list(c["departed"]), cg, d)
+            h, s_, obv = _setup_repair_glue(a, ri, c["remaining"], footprint, hosting, comm)
+        except Exception as e:
+            return dict(error=type(e).__name__)
+        g["ri"].append([a, [[comp, _info_json(i)] for comp, i in ri.items()]])
+        hard += h
+        soft += s_
+        for k, v in obv.items():
+            allvars.setdefault(k, v.name)
+    g["hard"] = [[x.name, [v.name for v in x.dimensions]] for x in hard]
+    g["soft"] = [[x.name, [v.name for v in x.dimensions]] for x in soft]
+    keys = sorted(allvars)
+    g["bv"] = [[k[0], k[1], allvars[k]] for k in keys]
+    names = [allvars[k] for k in keys]
+    if len(set(names)) != len(names):
+        return dict(error="name-collision")
+    n = len(keys)
+    if n <= 7:
+        asgs = [list(t) for t in itertools.product([0, 1], repeat=n)]
+    else:
+        asgs = [[rng.randint(0, 1) for _ in keys] for _ in range(40)]
+    # assignments selecting exactly one candidate per orphaned computation (valid unless over capacity)
+    comps = sorted({k[0] for k in keys})
+    for _ in range(24 if n > 7 else 0):
+        pick = {x: rng.choice([k[1] for k in keys if k[0] == x]) for x in comps}
+        asgs.append([1 if pick[k[0]] == k[1] else 0 for k in keys])
+
+    def total(cs, val):
+        try:
+            return {"ok": _num(sum(x(**{v.name: val[v.name] for v in x.dimensions}) for x in cs))}
+        except Exception as e:
+            return {"error": type(e).__name__}
+    g["evals"] = []
+    for a in asgs:
+        val = dict(zip(names, a))
+        g["evals"].append([a, total(hard, val), total(soft, val)])
+    return g
+
+
 def _tblfun(t):
     return lambda comp: t.get(comp, 0)
 
@@ -374,6 +452,9 @@ def run_impl(c):
                 dict(ctype="comm", agt=agt, cand=comp, info=info_json, comm=c["comm"],
                      comm_default=c["comm_default"]), orphaned_binvars,
                 lambda: P.create_agent_comp_comm_constraint(agt, comp, i, comm, orphaned_binvars), rng))
+        # the repair info in the iteration order the construction above saw (sets are not reordered)
+        o["repair_info"] = [[comp, _info_json(i)] for comp, i in repair_info.items()]
+        o["global"] = _global_obs(c, cands, cg, d, rng)
         return o
     # synthetic
     bv = {}
@@ -581,6 +662,61 @@ def _flow_scope_oracle(c, o):
     return None
 
 
+def _global_oracle(c, o, b_is_technical=False):
+    """hard sum 0 iff valid rehosting; then soft sum = hosting + communication cost (from the raw case)"""
+    g = o.get("global")
+    if not g or "error" in g or "repair_info_error" in o:
+        return None
+    dep = set(c["departed"])
+    rep = {k: set(v) for k, v in c["replicas"].items()}
+    host = dict(c["host"])
+    orph = [x for x in dict.fromkeys(_spec_orphaned(c, b_is_technical))]
+    cand = {x: rep.get(x, set()) - dep for x in orph}
+    graph = {}
+    for name, ns in c["graph"]:
+        graph.setdefault(name, ns)
+    exp_vars = sorted((x, a) for x in orph for a in cand[x])
+    got_vars = sorted((k[0], k[1]) for k in g["bv"])
+    if exp_vars != got_vars:
+        return "repair DCOP variables %r, expected one per (orphaned computation, candidate) %r" % (got_vars, exp_vars)
+    if sorted(g["agents"]) != sorted({a for x in orph for a in cand[x]}):
+        return "repair DCOP built by %r" % g["agents"]
+    fp, hc = _tblfun(c["footprint"]), _tblfun(c["hosting"])
+    comm = _commfun(c["comm"], c["comm_default"])
+    keys = [(k[0], k[1]) for k in g["bv"]]
+    for vals, h, s_ in g["evals"]:
+        if "ok" not in h or "ok" not in s_:
+            return "repair DCOP cannot be evaluated: %r %r" % (h, s_)
+        x = dict(zip(keys, vals))
+        sel = {y: [a for a in sorted(cand[y]) if x[(y, a)] == 1] for y in orph}
+        valid = all(len(sel[y]) == 1 for y in orph if cand[y])
+        for a in g["agents"]:
+            if sum(fp(y) for y in orph if a in cand[y] and x[(y, a)] == 1) > c["remaining"]:
+                valid = False
+        if (h["ok"] == 0) != valid:
+            return "hard part of the repair DCOP is %d on %s assignment %r" % (
+                h["ok"], "a valid" if valid else "an invalid", dict(zip(["%s@%s" % k for k in keys], vals)))
+        if h["ok"] < 0:
+            return "negative hard cost"
+        if valid:
+            new = {y: sel[y][0] for y in orph if cand[y]}
+            cost = 0
+            for y, a in new.items():
+                cost += hc(y)
+                for n_ in dict.fromkeys(graph.get(y, [])):
+                    if n_ == y:
+                        continue
+                    if n_ in orph:
+                        if n_ in new:
+                            cost += comm(y, n_, new[n_])
+                    else:
+                        cost += comm(y, n_, host[n_])
+            if s_["ok"] != cost:
+                return "soft part of the repair DCOP is %d, hosting + communication cost of the rehosting is %d" % (
+                    s_["ok"], cost)
+    return None
+
+
 def _oracle(c, o, b_is_technical=False):
     if "flow_error" in o:
         return "repair DCOP cannot be built: " + o["flow_error"]
@@ -594,6 +730,10 @@ def _oracle(c, o, b_is_technical=False):
             return m
     if c["kind"] == "flow" and not b_is_technical:
         m = _flow_scope_oracle(c, o)
+        if m:
+            return m
+    if c["kind"] == "flow":
+        m = _global_oracle(c, o, b_is_technical)
         if m:
             return m
     return None
@@ -614,6 +754,8 @@ def classify(c, o, msg):
     if _removal_oracle(c, o["removal"], b_is_technical=True) is None:
         ok = all(_constr_oracle(co, ctx=c if c["kind"] == "flow" else None) is None
                  for co in o.get("constraints", []))
+        if ok and c["kind"] == "flow" and _global_oracle(c, o, b_is_technical=True) is not None:
+            ok = False
         if ok:
             return FINDING_B
     return None
@@ -676,12 +818,38 @@ def _constr_term(co):
     return "CConstr (mkConstr %s %s %s %s %s %s)" % (spec, bv, created, q.slist(co.get("keys", [])), evals, extra)
 
 
+def _ri_term(ri):
+    return _pairs(ri, q.s, _info)
+
+
+def _setup_term(o):
+    sig = [co["created"]["ok"] for co in o["constraints"]]
+    return "ASetup (mkSetup %s %s (Ok %s))" % (q.s(o["own"]), _ri_term(o["repair_info"]),
+                                              _pairs(sig, q.s, q.slist))
+
+
+def _global_term(c, g):
+    rows = [r for r in c["comm"]]
+    evals = q.lst(["(%s, %s, %s)" % (q.zlist(v), _res(h, q.z), _res(s_, q.z)) for v, h, s_ in g["evals"]])
+    return "AGlobal (mkGlobal %s %s %s %s %s %s %s %s %s)" % (
+        q.slist(g["agents"]), _pairs(g["ri"], q.s, _ri_term), q.z(c["remaining"]),
+        q.szdict(c["footprint"]), q.szdict(c["hosting"]),
+        q.lst(["(%s, %s, %s, %s)" % (q.s(a), q.s(b_), q.s(c_), q.z(v)) for a, b_, c_, v in rows]),
+        q.z(c["comm_default"]),
+        q.lst(["((%s, %s), %s)" % (q.s(a), q.s(b_), q.s(n)) for a, b_, n in g["bv"]]), evals)
+
+
 def coq_case(c, o):
     terms = []
     if "removal" in o:
-        terms.append(_removal_term(c, o["removal"]))
+        terms.append("A1 (%s)" % _removal_term(c, o["removal"]))
     for co in o.get("constraints", []):
-        terms.append(_constr_term(co))
+        terms.append("A1 (%s)" % _constr_term(co))
+    if "repair_info" in o and all("ok" in co["created"] for co in o["constraints"]):
+        terms.append(_setup_term(o))
+    g = o.get("global")
+    if g and "error" not in g:
+        terms.append(_global_term(c, g))
     return q.lst(terms)
 
 
@@ -700,6 +868,14 @@ def histogram(cases, obs):
             h["assignments"] = h.get("assignments", 0) + len(co.get("evals", [])) + len(co.get("extra", []))
             if "error" in co["created"]:
                 h["constraint/creation-error"] = h.get("constraint/creation-error", 0) + 1
+        g = o.get("global") if isinstance(o, dict) else None
+        if g and "error" not in g:
+            h["repair-dcop"] = h.get("repair-dcop", 0) + 1
+            h["repair-dcop/assignments"] = h.get("repair-dcop/assignments", 0) + len(g["evals"])
+            h["repair-dcop/hard-zero"] = h.get("repair-dcop/hard-zero", 0) + sum(
+                1 for _, hd, _s in g["evals"] if hd.get("ok") == 0)
+        elif g:
+            h["repair-dcop/" + g["error"]] = h.get("repair-dcop/" + g["error"], 0) + 1
         r = o.get("removal") if isinstance(o, dict) else None
         if r:
             for _, res in r["info"]:
